@@ -94,7 +94,9 @@ func (pool *TransactionsPool) Validate(timestamp int64) {
 	}
 	pool.mutex.Lock()
 	defer pool.mutex.Unlock()
-	transactions := pool.transactions
+	// Work on a copy: when the block is refused the pool must be left as it was, not shuffled, shifted or extended
+	transactions := make([]*ledger.Transaction, len(pool.transactions))
+	copy(transactions, pool.transactions)
 	rand.Seed(timestamp)
 	rand.Shuffle(len(transactions), func(i, j int) {
 		transactions[i], transactions[j] = transactions[j], transactions[i]
